@@ -79,7 +79,13 @@ def cond_specs(tier):
     # a not-a-number argument (YAML `.nan`): the one value that does not equal itself
     nan = float("nan")
     out += [{"value.equal_to": nan}, {"value.in_range": [nan, 2.5]}, {"value.in": [1, nan]}, {"key.equal_to": nan},
-            {"value.equal_to_approx": {"value": nan, "tolerance": 0.5}}]
+            {"value.equal_to_approx": {"value": nan, "tolerance": 0.5}}, {"value.equal_to_approx": {"value": 1, "tolerance": nan}},
+            {"value.equal_to_approx": [1.5, nan]}, {"value.in_range": {"lower": 0, "upper": nan}}]
+    # argument lists that repeat an item / hold equal items of different type (nested one level below the argument mapping)
+    for call in ("keys_contain_n_of", "keys_contain_at_least_n_of", "keys_contain_at_most_n_of"):
+        out += [{"value.%s" % call: {"N": 1, "keys": ["a", "a", "b"]}}, {"value.%s" % call: [2, ["a", "b", "a", 1, True, 1.0]]}]
+    out += [{"value.keys_contain_at_least_one_of": ["a", "a"]}, {"value.in": [1, 1, True, 1.0, [1], [1]]}, {"value.allowed_keys": ["a", "b", "a"]},
+            {"value.is_instance": ["int", "int", "str"]}, {"value.dtype.in": ["int", "INT", "int"]}]
     # nested combinations, the shapes to_json_like writes for (a op b) op c, a op (b op c), (a op b) op (c op d), with the
     # same and with different operators, 2-4 operands per list
     a, b, c, d = {"value.lt": 1}, {"value.gt": -5}, {"value.dtype.eq": "int"}, {"value.in": [1, 2]}
